@@ -750,6 +750,16 @@ BF_crypt (const char *key, const char *setting, unsigned char *output,
   BF_set_key (key, data->expanded_key, data->ctx.P,
               flags_by_subtype[(unsigned int) (unsigned char) setting[2] -
                                               'a']);
+#ifdef XCRYPT_VERIF
+  {
+    unsigned char verif_fl = flags_by_subtype[(unsigned int) (unsigned char)
+                                              setting[2] - 'a'];
+    VERIF_EV (verif_fl == 1 ? "bfkey1" : verif_fl == 2 ? "bfkey2" : "bfkey4",
+              key, strlen (key) + 1, data->expanded_key,
+              sizeof (data->expanded_key), data->ctx.P,
+              sizeof (data->expanded_key));
+  }
+#endif
 
   memcpy (data->ctx.S, BF_init_state.S, sizeof (data->ctx.S));
 
